@@ -3,8 +3,8 @@ from containers import *
 from c11 import set_eq, normalize_obs
 
 TP_ALL = [t for t in TPLS if t.name in ("declare", "defframe", "defcal", "defcalmeasure", "pragma", "gate", "measure", "defgate")]
-TP = [t for t in TPLS if t.name in ("declare", "defcal", "defcalmeasure", "gate", "measure")]
-OPS = {"quick": ["add_instruction", "add_assign", "clone_without_body", "rebuild", "wrap_in_loop2", "wrap_in_loop0"],
+TP = [t for t in TPLS if t.name in ("declare", "defcal", "defcalmeasure", "gate")]
+OPS = {"quick": ["add_instruction", "add_assign", "clone_without_body", "rebuild", "wrap_in_loop2"],
        "thorough": ["add_instruction", "add_assign", "clone_without_body", "clone", "rebuild", "wrap_in_loop2", "wrap_in_loop0", "wrap_in_loop1"]}
 
 
@@ -34,10 +34,10 @@ class C10(Check):
                    "histories: a start sequence followed by operations from the listed alphabet; calibration / gate-sequence expansion, simplify and placeholder "
                    "resolution are covered by their own properties' encodings and are not part of this history alphabet"]
     outside = ["histories longer than the bound", "operations expand_calibrations, expand_defgate_sequences, simplify, resolve_placeholders inside histories"]
-    N = {"quick": 2, "thorough": 3}
+    N = {"quick": 1, "thorough": 2}
     H = {"quick": 2, "thorough": 3}
     sample_rate = 128
-    max_paths = {"quick": 200000, "thorough": 3000000}
+    max_paths = {"quick": 400000, "thorough": 6000000}
 
     def bounds(self, tier):
         return {"start_sequence": f"<= {self.N[tier]}", "history_length": f"<= {self.H[tier]}", "operations": OPS[tier], "templates": [t.name for t in TP]}
@@ -98,11 +98,17 @@ class C10(Check):
         if not col.failed: return False, "", "native run satisfies the oracle"
         want = (case.get("kind"), case.get("detail"))
         kind, detail = want if want in col.failed else col.failed[0]
-        # attribute to the cause: the first step whose cache obligation fails; a stale cache left by an earlier
-        # cache-resetting operation explains every later failure of the same history
+        # attribute to the cause: the first step whose cache obligation fails explains every later failure of the
+        # same history (a stale or reset cache stays wrong until it is rebuilt)
+        steps = ["build"] + case["ops"]
         first = next(((k, d) for k, d in col.failed if k == "used-qubits"), None)
-        if first is not None and first[1][6:] in RESET_OPS:
-            role = f"used-qubits:{first[1]}"
+        if first is not None:
+            i = steps.index(first[1][6:]) if first[1][6:] in steps else 0
+            i = next(j for j, nm in enumerate(steps) if ("used-qubits", f"after:{nm}") in col.failed)
+            used, per_ins = obs[2 * i], obs[2 * i + 1]
+            mentioned = [q for qs in per_ins for q in qs]
+            missing = [q for q in mentioned if not any(tree_eq(q, u) is True for u in used)]
+            role = f"used-qubits:after:{steps[i]}:" + ("missing" if missing else "extra")
         elif kind == "equal-listing-implies-eq":
             role = "equal-listing-implies-eq:" + "+".join(case["ops"])
         else:
